@@ -233,9 +233,27 @@ type MockTableHandler struct {
 func copyRecord(record map[string]interface{}) map[string]interface{} {
 	cp := make(map[string]interface{}, len(record))
 	for k, v := range record {
-		cp[k] = v
+		cp[k] = copyValue(v)
 	}
 	return cp
+}
+
+// copyValue copies nested objects and arrays too: a column may hold a list or
+// an object, and a copy that shared it with the stored record would let a
+// request that changes its own copy change the stored record as well.
+func copyValue(v interface{}) interface{} {
+	switch val := v.(type) {
+	case map[string]interface{}:
+		return copyRecord(val)
+	case []interface{}:
+		cp := make([]interface{}, len(val))
+		for i, elem := range val {
+			cp[i] = copyValue(elem)
+		}
+		return cp
+	default:
+		return v
+	}
 }
 
 // All retrieves all records
@@ -301,7 +319,7 @@ func (m *MockTableHandler) Update(id interface{}, data map[string]interface{}) m
 		if sameID(record["id"], id) {
 			// Merge data
 			for k, v := range data {
-				record[k] = v
+				record[k] = copyValue(v)
 			}
 			m.db.data[m.name][i] = record
 			return copyRecord(record)
